@@ -1,5 +1,5 @@
 SPECIFICATION HSpec
-CONSTANTS Effs = {"p1","p0","up","upr","upk","p1f","ran","nx","k2","pk","none"}
+CONSTANTS Effs = {"p1","p0","up","upr","upk","p1f","ran","nx","k2","pk","upm","none"}
 INVARIANT Conservation
 PROPERTY FailAtomic
 CONSTRAINT Bound
